@@ -1,5 +1,164 @@
-(** C06 - stub, replaced once the proofs are in place. *)
-From RimeV Require Import Dict.Vocab Dict.TableIx Dict.MFile Gen.Layout.
+(** C06 - a compiled dictionary contains exactly its source entries.
+    Property theorems only; each closed by [exact] of a lemma proved in
+    Dict/TableProofs.v / Dict/MFileProofs.v, or by computation over the
+    generated Gen/Layout.v (struct sizes, size estimate and remap facts of the
+    current source). *)
+From Coq Require Import List NArith Bool Arith Permutation Sorted.
+From RimeV Require Import Base.Bytes Dict.Vocab Dict.TableIx Dict.MFile Dict.TableProofs Dict.MFileProofs Gen.Layout.
+Import ListNotations.
+
+(** ** What was translated from the current source is what the model assumes *)
+
 Theorem C06_index_depth : index_code_max_length = 3%N.
 Proof. reflexivity. Qed.
 Print Assumptions C06_index_depth.
+
+(* every index allocation is a multiple of 4 bytes, no alignment above 4: no padding *)
+Theorem C06_layout_ok : layout_ok current_layout = true.
+Proof. vm_compute. reflexivity. Qed.
+Print Assumptions C06_layout_ok.
+
+(** ** enumerate_build: for every source (any files, columns, rows), walking the built index as the
+    decompiler does yields exactly the collected entries - each under its own full code (index code
+    followed by extra code), with its text and its weight after the cast - as a multiset. *)
+Theorem C06_enumerate_build :
+  forall (F : Type) (cast : dec -> F) (sort_original : bool) (files : list (colspec * list bytes)),
+  let c := collect_files files in
+  let S := length (co_syll c) in
+  Permutation (enumerate S (build_head cast S (compile_vocab sort_original c)))
+              (map (conv F cast) (map out_of (filter has_code (entries_of c)))).
+Proof. exact @enumerate_build_source. Qed.
+Print Assumptions C06_enumerate_build.
+
+(** ** ... and the collected entries are exactly the source rows that carry a code:
+    nothing invented, *)
+Theorem C06_nothing_invented :
+  forall files r, In r (co_entries (collect_files files)) ->
+  exists t cs ws, In (LRow t cs ws) (source_rows files) /\ cs <> [] /\ r = raw_of t cs ws.
+Proof. exact source_nothing_invented. Qed.
+Print Assumptions C06_nothing_invented.
+
+(** nothing lost (a one-syllable row may be represented by an earlier identical definition of the
+    same word - EntryCollector's "duplicate word definition"), *)
+Theorem C06_nothing_lost :
+  forall files t cs ws, In (LRow t cs ws) (source_rows files) -> cs <> [] ->
+  exists r, In r (co_entries (collect_files files)) /\ re_text r = t /\ re_code r = split_skip Byte.x20 cs /\
+            (is_single r = false -> r = raw_of t cs ws).
+Proof. exact source_nothing_lost. Qed.
+Print Assumptions C06_nothing_lost.
+
+(** and rows with a code of two or more syllables are collected one for one, in order. *)
+Theorem C06_phrases_one_for_one :
+  forall files,
+  filter (fun r => negb (is_single r)) (rev (co_entries (collect_files files))) =
+  filter (fun r => negb (is_single r)) (flat_map coded (source_rows files)).
+Proof. exact source_phrases_one_for_one. Qed.
+Print Assumptions C06_phrases_one_for_one.
+
+(** ** same_code_sorted: unless the source asks for the original order, any two enumerated entries
+    with the same code appear in non-increasing weight order (for every monotone cast). *)
+Theorem C06_same_code_sorted :
+  forall (F : Type) (cast : dec -> F) (fle : F -> F -> bool),
+  (forall a b, dec_leb a b = true -> fle (cast a) (cast b) = true) ->
+  forall (files : list (colspec * list bytes)),
+  let c := collect_files files in
+  let S := length (co_syll c) in
+  StronglySorted (fun x y => fst x = fst y -> fle (ie_w (snd y)) (ie_w (snd x)) = true)
+                 (enumerate S (build_head cast S (compile_vocab false c))).
+Proof. exact @same_code_sorted_source. Qed.
+Print Assumptions C06_same_code_sorted.
+
+(** ** reverse_lookup_exact: the syllables the reverse table records for a text are exactly the
+    one-syllable codes of the collected entries with that text. *)
+Theorem C06_reverse_lookup_exact :
+  forall (sort_original : bool) (files : list (colspec * list bytes)) (text s : bytes),
+  let c := collect_files files in
+  In s (rev_codes (co_syll c) (compile_vocab sort_original c) text) <->
+  exists r, In r (co_entries c) /\ re_text r = text /\ re_code r = [s].
+Proof. exact reverse_lookup_source. Qed.
+Print Assumptions C06_reverse_lookup_exact.
+
+(** ** build_never_remaps: if the bytes Table::Build allocates fit the capacity the file was created
+    with, the build over the growing mapped file never uses a stale pointer, never remaps, and ends
+    with exactly bytes_needed bytes used. *)
+Theorem C06_build_never_remaps :
+  forall (S NE : nat) (v : voc1) (img c : N),
+  estimate current_layout (bf_estimate current_facts) S NE v = Some c ->
+  (bytes_needed current_layout S v img <= c)%N ->
+  exists s', table_build current_layout current_facts S NE v img = Ok s' /\
+             epoch s' = 0 /\ used s' = bytes_needed current_layout S v img /\ cap s' = c.
+Proof. intros S NE v img c. exact (table_build_within_estimate current_layout current_facts S NE v img c C06_layout_ok). Qed.
+Print Assumptions C06_build_never_remaps.
+
+(** The premise is not vacuous ... *)
+Theorem C06_build_within_budget_example :
+  let v := witness_voc 60 2 40 in
+  exists c, estimate current_layout (EstLinear 4096 32 64) 60 40 v = Some c /\
+            (bytes_needed current_layout 60 v 1000 <= c)%N /\
+            table_build current_layout
+              {| bf_estimate := EstLinear 4096 32 64; bf_growth_doubles := true; bf_rederive_after_image := false |}
+              60 40 v 1000 <> Err StalePointer.
+Proof. vm_compute. eexists. repeat split; discriminate. Qed.
+Print Assumptions C06_build_within_budget_example.
+
+(** ... and it is false for well-formed sources under the linear estimate 4096 + 32 S + 64 N of
+    table.cc: n rows with 8-syllable codes and pairwise distinct two-syllable prefixes over 60
+    syllables need more, even with an empty string image; the model's build then uses a stale pointer. *)
+Definition linear_facts : build_facts :=
+  {| bf_estimate := EstLinear 4096 32 64; bf_growth_doubles := true; bf_rederive_after_image := false |}.
+
+Theorem C06_linear_estimate_refuted :
+  forallb (fun n =>
+    let v := witness_voc 60 8 n in
+    match estimate current_layout (EstLinear 4096 32 64) 60 n v with
+    | Some c => N.ltb c (bytes_needed current_layout 60 v 0)
+    | None => false
+    end &&
+    match table_build current_layout linear_facts 60 n v 0 with
+    | Err StalePointer => true
+    | _ => false
+    end) [450; 500; 1000; 3000] = true.
+Proof. vm_compute. reflexivity. Qed.
+Print Assumptions C06_linear_estimate_refuted.
+
+(* sixteen such rows over ten syllables are enough once the string image has its usual minimum
+   size of about 4 KB (the reserve of 4096 bytes is what a small marisa trie image takes) *)
+Theorem C06_linear_estimate_refuted_small :
+  let v := witness_voc 10 8 16 in
+  table_build current_layout linear_facts 10 16 v 4000 = Err StalePointer.
+Proof. vm_compute. reflexivity. Qed.
+Print Assumptions C06_linear_estimate_refuted_small.
+
+(** ** The current source: its estimate contains the exact index size and metadata_ is looked up
+    again after the string image is allocated - then Table::Build is sound for every vocabulary and
+    every image size. *)
+Theorem C06_current_build_facts_sound : facts_sound current_facts = true.
+Proof. vm_compute. reflexivity. Qed.
+Print Assumptions C06_current_build_facts_sound.
+
+Theorem C06_current_build_never_fails :
+  forall (S NE : nat) (v : voc1) (img : N),
+  exists s', table_build current_layout current_facts S NE v img = Ok s' /\
+             used s' = bytes_needed current_layout S v img.
+Proof. exact (table_build_sound current_layout current_facts C06_layout_ok C06_current_build_facts_sound). Qed.
+Print Assumptions C06_current_build_never_fails.
+
+(** ** Non-vacuity of the enumeration theorems: a concrete three-file-free source with a comment,
+    a repeated text, a repeated code and a five-syllable code. *)
+Definition example_lines : list bytes :=
+  (* "# c" ; "b<TAB>y x<TAB>2" ; "a<TAB>x<TAB>5" ; "c<TAB>x<TAB>7" ; "a<TAB>x y x y x" *)
+  [ [Byte.x23; Byte.x20; Byte.x63];
+    [Byte.x62; Byte.x09; Byte.x79; Byte.x20; Byte.x78; Byte.x09; Byte.x32];
+    [Byte.x61; Byte.x09; Byte.x78; Byte.x09; Byte.x35];
+    [Byte.x63; Byte.x09; Byte.x78; Byte.x09; Byte.x37];
+    [Byte.x61; Byte.x09; Byte.x78; Byte.x20; Byte.x79; Byte.x20; Byte.x78; Byte.x20; Byte.x79; Byte.x20; Byte.x78] ].
+
+Theorem C06_enumerate_example :
+  let files := [({| col_text := Some 0; col_code := Some 1; col_weight := Some 2 |}, example_lines)] in
+  let c := collect_files files in
+  map (fun o => (fst o, ie_text (snd o)))
+      (enumerate (length (co_syll c)) (build_head (fun w => w) (length (co_syll c)) (compile_vocab false c))) =
+  [ ([0], [Byte.x63]); ([0], [Byte.x61]); ([0; 1; 0; 1; 0], [Byte.x61]); ([1; 0], [Byte.x62]) ] /\
+  rev_codes (co_syll c) (compile_vocab false c) [Byte.x61] = [[Byte.x78]].
+Proof. vm_compute. split; reflexivity. Qed.
+Print Assumptions C06_enumerate_example.
